@@ -2,6 +2,8 @@ package main
 
 import (
 	"fmt"
+	"os"
+	"path/filepath"
 	"strconv"
 )
 
@@ -163,6 +165,36 @@ func runC11(tier string, seed uint64) {
 						nontrivial(kind + "|vid|" + hdr + "|" + strconv.Itoa(vi))
 					}
 				}
+			}
+		}
+		// a ranged read as the first read of an object whose metadata record is gone (lost with its
+		// directory, or a server restarted over the same files): the backend rebuilds the record on
+		// the way; the bytes are the same
+		if st.reopen != nil && st.dir != "" && (kind == "fsdir" || kind == "sfsdir") {
+			metaDir := filepath.Join(st.dir, "metadata")
+			if kind == "sfsdir" {
+				metaDir = filepath.Join(st.dir, "meta")
+			}
+			data := c11Body(100)
+			for _, hdr := range []string{"bytes=10-15", "bytes=-5", "bytes=90-", "bytes=1-1", "bytes=0-3", "bytes=99-200"} {
+				ents, _ := os.ReadDir(metaDir)
+				for _, e := range ents {
+					os.RemoveAll(filepath.Join(metaDir, e.Name()))
+				}
+				nb, err := st.reopen()
+				if err != nil {
+					break
+				}
+				h = newServer(nb)
+				r := do(h, Req{Method: "GET", Path: "/" + bucket + "/obj100", Header: [][2]string{{"Range", hdr}}})
+				p := "0"
+				if r.Panic != "" {
+					p = "1"
+				}
+				emit("c11", kind, hs(hdr), hx(data), strconv.Itoa(r.Status), hs(errCode(r.Body)),
+					hs(r.Header.Get("Content-Range")), hs(r.Header.Get("Content-Length")), hx(bodyIfOK(r)), p)
+				stat("first-read-after-metadata-loss")
+				nontrivial(kind + "|first-read|" + hdr)
 			}
 		}
 		st.Close()
